@@ -13,6 +13,8 @@ import ASV.Proofs.RegionsRingShort
 import ASV.Proofs.RegionsGiven
 import ASV.Proofs.RegionsRingOne
 import ASV.Proofs.RegionsRingNear
+import ASV.Proofs.RegionsRingUnion
+import ASV.Proofs.RegionsRingOrder
 namespace ASV.C06
 open ASV ASV.Regions ASV.Components
 
@@ -304,6 +306,53 @@ example : ∀ f ∈ nearDemo.cands ++ nearDemo.subs, NearOrigin 100 nearDemo.len
 example : (createRegions nearDemo).toOption.map (fun s => s.regions.map view) =
     some [(.compound [⟨900, 1000, .fwd⟩, ⟨0, 60, .fwd⟩], [], [0, 4, 1, 2]), (.simple ⟨70, 90, .fwd⟩, [], [3])] := by
   decide +kernel
+
+/-- **Region location on a ring = exactly the union of its members** (`_partial`: hypothesis `ArcUnions`,
+    conditional on `create_regions` returning): base `i` lies in a region's location iff it lies in one of the areas
+    the region lists — not merely "shortest covering arc".  With an origin-spanning member this is
+    `connect_ring_exact` applied to `Region.__init__`'s own `connect_locations` call (wrap point = record length,
+    `regionWrap_ring`); without one the location is the line hull, which is the union because the members were
+    grown by joining overlapping families (`joined_line_union`). -/
+theorem ring_region_location_is_union_partial (s s' : State) (hcirc : s.circular = true) (hL : 0 < s.len)
+    (hi : Inv s) (hreg : s.regions = []) (hring : ∀ f ∈ s.cands ++ s.subs, RingArea s.len f.loc)
+    (harc : ArcUnions s.len (s.cands ++ s.subs)) (h : createRegions s = .ok s') :
+    ∀ r ∈ s'.regions, ∀ i, r.loc.mem i = true ↔
+      ∃ f ∈ s.cands ++ s.subs, f.id ∈ memberIds r ∧ f.loc.mem i = true :=
+  ring_region_union s s' hcirc hL hi hreg hring harc h
+
+/-- … without the hypothesis on unions for layouts in the near-origin window (`4 W < L`) -/
+theorem ring_region_location_is_union_near_origin (s s' : State) (W : Int) (hcirc : s.circular = true)
+    (hW : 0 < W) (hWL : 4 * W < s.len) (hi : Inv s) (hreg : s.regions = [])
+    (hnear : ∀ f ∈ s.cands ++ s.subs, NearOrigin W s.len f.loc) (h : createRegions s = .ok s') :
+    ∀ r ∈ s'.regions, ∀ i, r.loc.mem i = true ↔
+      ∃ f ∈ s.cands ++ s.subs, f.id ∈ memberIds r ∧ f.loc.mem i = true :=
+  ring_region_union s s' hcirc (by omega) hi hreg (fun f hf => (hnear f hf).ringArea hW hWL)
+    (arcUnions_near_origin hW hWL hnear) h
+
+/-- **The comparison of areas on a ring** (first of the three pieces missing for success of `create_regions` with
+    origin-spanning areas): for well-formed areas of a ring — single parts inside the record and origin-spanning
+    `[x, L) + [0, y)` — `CDSCollection.__lt__` never raises (`split_origin_bridging_location` succeeds) and is
+    exactly the strict lexicographic order of the spec's `orderKey` (first base going round from the origin, an
+    origin-spanning area starting before it; longer first), **unless** the left operand is a single part covering
+    the whole record — the recorded class `KF-C06-full-record-order`, for which `full_record_order_witness` shows
+    the statement false. -/
+theorem collectionLt_is_key_order_on_ring_areas (L : Int) (a b : Loc) (ha : RingArea L a) (hb : RingArea L b)
+    (hfull : ∀ p, a = .simple p → ¬ (p.lo = 0 ∧ p.hi = L)) :
+    collectionLt a b = .ok (keyLt (orderKey L a) (orderKey L b)) :=
+  collectionLt_ring ha hb hfull
+
+/-- … so `areas.sort()` of `create_regions` never raises on such areas and is the stable insertion sort by that key -/
+theorem ring_sort_succeeds (L : Int) (l : List Feat) (hring : ∀ f ∈ l, RingArea L f.loc)
+    (hfull : ∀ f ∈ l, ∀ p, f.loc = .simple p → ¬ (p.lo = 0 ∧ p.hi = L)) :
+    sortAreas l = .ok (sortP (fun y x => keyLt (orderKey L y.loc) (orderKey L x.loc)) l) :=
+  sortAreas_eq _ l (fun x hx y hy => collectionLt_ring (hring y hy) (hring x hx) (hfull y hy))
+
+/-- non-vacuity: an origin-spanning area sorts before a single part, the longer origin-spanning one first -/
+example : (collectionLt (areaTwo 950 30 1000 .fwd) (.simple ⟨20, 60, .fwd⟩)).toOption = some true ∧
+    (collectionLt (areaTwo 950 30 1000 .fwd) (areaTwo 990 10 1000 .fwd)).toOption = some true ∧
+    RingArea 1000 (areaTwo 950 30 1000 .fwd) ∧ RingArea 1000 (.simple ⟨20, 60, .fwd⟩) := by
+  refine ⟨by decide, by decide, Or.inr ⟨950, 30, rfl, by decide, by decide, by decide⟩,
+    Or.inl ⟨_, rfl, by decide, by decide, by decide⟩⟩
 
 /-! ### `create_regions(candidate_clusters=…, subregions=…)`: regions are built from exactly the given areas -/
 
